@@ -61,8 +61,11 @@ IsRange(e) == e \in {"range", "emptyRange", "backRange"}
 \* Boundary totals: the same shapes with a value / a total of zero.  The routing rule of the
 \* statement does not depend on the value being non-zero, so each routes like its twin.
 ZeroTotals == {"i64zero", "f64zero", "f64negzero", "seqiZeros", "seqiCancel", "seqfZeros", "seqfCancel"}
+\* Other integer widths: sval forwards unsigned and 128-bit integers that fit to i64 and
+\* hands the others over as u128 / i128; all of them are numeric.
 Twin(v) ==
-    CASE v = "i64zero" -> "i64"
+    CASE v \in {"i64zero", "u64small", "i128small"} -> "i64"
+      [] v = "i128big" -> "u64big"
       [] v \in {"f64zero", "f64negzero"} -> "f64"
       [] v \in {"seqiZeros", "seqiCancel"} -> "seqi"
       [] v \in {"seqfZeros", "seqfCancel"} -> "seqf"
@@ -71,7 +74,7 @@ Twin(v) ==
 NumericReadings(v) ==
     CASE Twin(v) \in {"i64", "f64", "u64big", "seqi", "seqf"} -> {TRUE}
       [] v = "emptySeq" -> {TRUE, FALSE}
-      [] OTHER -> {FALSE}          \* text, bool, missing, nested sequence, sequence of text
+      [] OTHER -> {FALSE}          \* text, bool, null, missing, nested sequence, sequence of text
 
 -----------------------------------------------------------------------------
 (* Level A *)
